@@ -1,0 +1,14 @@
+// +build verif
+
+package stack
+
+import tcpip "github.com/brewlin/net-protocol/protocol"
+
+// VerifUnregisterLinkEndpoint removes a link endpoint from the process-global
+// registry, so that a worker process running many simulated runs does not keep
+// every finished run's stack alive.
+func VerifUnregisterLinkEndpoint(id tcpip.LinkEndpointID) {
+	linkEPMu.Lock()
+	delete(linkEndpoints, id)
+	linkEPMu.Unlock()
+}
